@@ -28,6 +28,8 @@ def case_list(name, label, cfg, tier):
     n = 6 if tier == 'quick' else 8
     cases = [(p, 6, 'disjoint') for p in domains.profiles(n)]
     cases += [(p, 1, 'shared') for p in domains.profiles(3)]
+    if 'param_identifier_size' not in cfg:
+        cases += [(p, 6, 'mixed-ids') for p in domains.profiles(5)]
     lens = [v for v in domains.around(sse.special_lengths(name, cfg, tier)) if v <= 40]
     cases += [(p, 6, 'disjoint') for p in domains.boundary_profiles(lens, extra=False)]
     # key material with awkward byte values (a key is bytes, not text): KeyGen is fed a patterned os.urandom
